@@ -1,3 +1,4 @@
+import MemVerif.Gen.Consts
 import MemVerif.Model.Lock
 /-!
 # C13 — thread_safe_allocator serialises all access to the wrapped allocator
@@ -257,5 +258,29 @@ example :
     let m : StorageMember := ⟨"allocate_node", false, true, true, false, false⟩
     ((LockSys.init [[.member m, .viaProxy 2], [.member m], [.viaProxy 1]]).run
       [0, 1, 2, 0, 0, 1, 2, 1, 1, 2, 2, 0, 0, 0, 0, 2]).log.all (·.2) = true := by decide
+
+/-! ### the mutex is really there for every stateful allocator -/
+
+/-- every stateful allocator — whether it says so itself or is merely a non-empty class, and **also an empty class that
+declares `is_stateful`** (its state lives elsewhere: a handle to a global arena) — gets the real mutex -/
+theorem C13_stateful_takes_mutex (declared : Option Bool) (empty : Bool) (h : isStateful declared empty = true) :
+    takesMutex declared empty = true := by
+  simp [takesMutex, isThreadSafe, h]
+
+/-- stateless allocators take no lock -/
+theorem C13_stateless_takes_no_mutex (declared : Option Bool) (empty : Bool) (h : isStateful declared empty = false) :
+    takesMutex declared empty = false := by
+  simp [takesMutex, isThreadSafe, h]
+
+/-- **The compiled code selects the mutex as the model says**, for the five allocator archetypes
+(`is_stateful` absent / `true_type` / `false_type`) × (empty / non-empty class): the values on the left are printed by a
+probe compiled against the current source tree (`std::is_same<detail::mutex_for<A, std::mutex>, std::mutex>` and the
+storage object derives from `mutex_storage<std::mutex>`). -/
+theorem C13_mutex_selection_matches_code :
+    MemVerif.Gen.C.mutexfor_none_empty.toNat = (takesMutex none true).toNat ∧
+    MemVerif.Gen.C.mutexfor_none_nonempty.toNat = (takesMutex none false).toNat ∧
+    MemVerif.Gen.C.mutexfor_true_empty.toNat = (takesMutex (some true) true).toNat ∧
+    MemVerif.Gen.C.mutexfor_true_nonempty.toNat = (takesMutex (some true) false).toNat ∧
+    MemVerif.Gen.C.mutexfor_false_empty.toNat = (takesMutex (some false) true).toNat := by decide
 
 end MemVerif.Props.C13
